@@ -252,6 +252,7 @@ func c13HSScenario(h c13HS, il bool) *Scenario {
 }
 
 func propC13(j *Job) {
+	twoInitCases(j, "C13")
 	c13Matrix(j)
 	// corruption: batches of bit flips
 	batch := 400
